@@ -1,4 +1,6 @@
 import LunarVerif.Proofs.C11
+import LunarVerif.Proofs.C11Glue
+import LunarVerif.Generated.Constants
 /-!
 # C11 — A transaction sees one policy version from request to response
 
@@ -171,5 +173,95 @@ example :
     answer inside the retention period is rejected. -/
 example : holds ⟨30, 30, 7⟩ [.lookup 0 0 (some 7), .update 0 9, .lookup 30 0 (some 9)] = false := by
   decide
+
+/-! ## Level 2: the handler glue (`routing/messages_handler.go`, policy mode)
+
+Model `Model/C11Glue.lean`: `processRequest` and `processResponse` both look the policies up by the
+transaction's OWN id; the accessor is the model above; the retry "lens" (`retryLens`) is what makes the
+version used by the response path observable.  Spec `Spec/C11Glue.lean` (observable history only).
+All request/response messages (first and retried attempts of any sequences, responses without a
+request, repeated responses), applied and rejected reloads and reverts, in any order. -/
+
+/-- Connection theorem of the glue level: the judge predicate `gHolds` is true of every model run -
+    every message of a transaction, request or response, is processed with the policies that were in
+    force when that transaction (not its sequence) was first seen. -/
+theorem c11_glue_holds (cfg : Cfg) (t0 : Nat) (gops : List GOp) :
+    gHolds cfg (grun cfg (ginit cfg t0) gops) = true := by
+  have := grun_holds cfg gops (ginit cfg t0) [] (ginv_init cfg t0) rfl
+  simpa [gHolds] using this
+
+/-- The response of a transaction is processed with exactly the policies its own request was stamped
+    with (`k`), whatever reloads/reverts and other attempts of the same sequence lie in between and
+    whatever sequence id it carries: the lens answers as the retry remedy of policies `k` would. -/
+theorem glue_response_uses_request_version (cfg : Cfg) (t0 : Nat) (gops : List GOp)
+    (pre mid post : List GEv) (id seq seq' status k : Nat) (out : Option Nat)
+    (hsplit : grun cfg (ginit cfg t0) gops =
+      pre ++ .req id seq (some k) :: (mid ++ .resp id seq' status out :: post)) :
+    out = (retryLens (gRetry cfg.d0 (mid.reverse ++ .req id seq (some k) :: pre.reverse))
+            k id seq' status).2 := by
+  have h := c11_glue_holds cfg t0 gops
+  rw [gHolds, hsplit] at h
+  simp only [List.reverse_append, List.reverse_cons, List.append_assoc, List.singleton_append] at h
+  have h2 := gHoldsRev_append_right _ post.reverse _ h
+  have e2 : gEventOk cfg.d0 (.resp id seq' status out) (mid.reverse ++ .req id seq (some k) :: pre.reverse) = true :=
+    gHoldsRev_head _ _ _ h2
+  have e1 : gEventOk cfg.d0 (.req id seq (some k)) pre.reverse = true :=
+    gHoldsRev_head _ _ _ (gHoldsRev_append_right _ (.resp id seq' status out :: mid.reverse) _ h2)
+  simp only [gEventOk, beq_iff_eq, Option.some.injEq] at e1
+  have hp : gPinned cfg.d0 (mid.reverse ++ .req id seq (some k) :: pre.reverse) id = some k := by
+    apply gPinned_append_some
+    rw [gPinned_self _ _ _ _ (by simp [mentions]), e1]
+  simp only [gEventOk, gLabel, hp, beq_iff_eq] at e2
+  exact e2
+
+/-- In particular: a response whose status is not the retry status of ITS OWN request's policies is
+    never answered with a retry header - even when the policies in force by then would retry it. -/
+theorem glue_no_retry_under_other_policies (cfg : Cfg) (t0 : Nat) (gops : List GOp)
+    (pre mid post : List GEv) (id seq seq' status k : Nat) (out : Option Nat)
+    (hsplit : grun cfg (ginit cfg t0) gops =
+      pre ++ .req id seq (some k) :: (mid ++ .resp id seq' status out :: post))
+    (hst : status ≠ lensStatus k) : out = none := by
+  rw [glue_response_uses_request_version cfg t0 gops pre mid post id seq seq' status k out hsplit]
+  simp [retryLens, hst]
+
+/-- Non-vacuity: a retried sequence with reloads between request and response and between attempts. -/
+example :
+    grun ⟨30, 30, 0⟩ (ginit ⟨30, 30, 0⟩ 0)
+      [.req 1 1, .reload 1 true, .resp 1 1 500, .req 2 1, .reload 2 true, .resp 2 1 501, .resp 2 1 502]
+    = [.req 1 1 (some 0), .reload 1, .resp 1 1 500 (some 10), .req 2 1 (some 1), .reload 2,
+       .resp 2 1 501 (some 10), .resp 2 1 502 none] := by
+  decide
+
+/-- The glue Spec rejects the history produced when the response path looks the policies up by the
+    SEQUENCE id (the retried attempt 2 is then processed with attempt 1's policies: no retry on 501). -/
+example :
+    gHolds ⟨30, 30, 0⟩ [.req 1 1 (some 0), .reload 1, .resp 1 1 500 (some 10), .req 2 1 (some 1),
+      .resp 2 1 501 none] = false := by
+  decide
+
+end LunarVerif.C11
+
+/-! ## Regenerated constants (tie to the source; `Generated/Constants.lean` is rewritten from /repo
+    by `harness/go/cmd/extract` on every run, so these `decide`s re-check what the code says now) -/
+namespace LunarVerif.C11
+open LunarVerif.Generated
+
+/-- The retention constants the code passes to its two vacuums satisfy the hypothesis of every theorem
+    above: transaction pins never outlive the policy versions they point to, and both sweeps tick. -/
+theorem retention_constants_ok :
+    Const.notFound = [] ∧ 0 < Const.txnVacuumTTL ∧ Const.txnVacuumTTL ≤ Const.versionsVacuumTTL ∧
+    0 < Const.txnVacuumTick ∧ 0 < Const.versionsVacuumTick ∧
+    Const.txnVacuumTick ≤ Const.txnVacuumTTL ∧ Const.versionsVacuumTick ≤ Const.versionsVacuumTTL := by
+  decide
+
+/-- The configuration the code actually runs with (extracted), for any initial policies. -/
+def extractedCfg (d0 : Nat) : Cfg :=
+  { pinTTL := Const.txnVacuumTTL.toNat, verTTL := Const.versionsVacuumTTL.toNat, d0 := d0 }
+
+/-- `c11_holds` instantiated at the extracted constants: no hypothesis left. -/
+theorem c11_holds_extracted (d0 t0 : Nat) (ops : List Op) :
+    holds (extractedCfg d0) (run (extractedCfg d0) (init (extractedCfg d0) t0) ops) = true :=
+  c11_holds (extractedCfg d0)
+    (by show Const.txnVacuumTTL.toNat ≤ Const.versionsVacuumTTL.toNat; decide) t0 ops
 
 end LunarVerif.C11
